@@ -146,6 +146,14 @@ COMPOSITES.update({
                                 dict(kind="system", name="yr", sysparam="YEAR", dop=U16),
                                 dict(kind="system", name="cent", sysparam="CENTURY", dop=U8), TAIL],
                      "clock": True},
+    "static-field-varitem": {"params": [SID, V("f", dict(
+        complex="staticfield", count=2, item_byte_size=3,
+        structure=dict(params=[V("d", dict(dt="A_BYTEFIELD", dct="leading", bl=8))]))), TAIL],
+        "blens": [0, 1, 2]},
+    "dynlen-field-varitem": {"params": [SID, V("f", dict(
+        complex="dynlenfield", count_dop=U8, offset=1,
+        structure=dict(params=[V("d", dict(dt="A_BYTEFIELD", dct="leading", bl=4, bitpos=4)),
+                               V("t", U8)])))], "counts": [0, 1, 2], "blens": [0, 2]},
     "dtc": {"params": [SID, V("d", dict(complex="dtc", dt="A_UINT32", bl=24, dtcs=DTCS)), TAIL]},
     "dtc-lowhigh": {"params": [SID, V("pre", U8), V("d", dict(complex="dtc", dt="A_UINT32", bl=24,
                                                                 hl=False, dtcs=DTCS))]},
@@ -191,6 +199,8 @@ def gen_dop(sx, d, path, shape, prop):
     nm = path.replace(".", "_").replace("[", "_").replace("]", "")
     if k == "dtc":
         return sx.int(nm, 0, (1 << d["bl"]) - 1)
+    if k is None and d["dt"] == "A_BYTEFIELD":
+        return sx.bytes(nm, shape.get("blen", 1))
     if k is None:
         if d.get("dct") == "paramlen":
             bl = shape["length"] if shape["length"] is not None else 24
@@ -222,6 +232,15 @@ def gen_dop(sx, d, path, shape, prop):
 # ---------------------------------------------------------------------------
 # reference layout
 # ---------------------------------------------------------------------------
+def _mark(env, pos, bitpos, nbits, hl):
+    """remember bits that a decoder need not reproduce (constants, multiplexer keys of a range)"""
+    n = (bitpos + nbits + 7) // 8
+    m = ((1 << nbits) - 1) << bitpos
+    for i in range(n):
+        kk = n - 1 - i if hl else i
+        env["const_bits"][pos + i] = env["const_bits"].get(pos + i, 0) | ((m >> (8 * kk)) & 0xFF)
+
+
 def ref_params(p, origin, cursor, params, vals, at_end, env):
     """lays the parameters out; returns the first byte after the right-most parameter"""
     end = cursor
@@ -234,6 +253,11 @@ def ref_params(p, origin, cursor, params, vals, at_end, env):
         if k == "const":
             t = prm["type"]
             n = p.put_field(pos, bitpos, t["bl"], prm["value"], t.get("hl") in (None, True))
+            if "const_bits" in env:  # remember which bits are coded constants
+                m = ((1 << t["bl"]) - 1) << bitpos
+                for i in range(n):
+                    kk = n - 1 - i if t.get("hl") in (None, True) else i
+                    env["const_bits"][pos + i] = env["const_bits"].get(pos + i, 0) | ((m >> (8 * kk)) & 0xFF)
         elif k == "value":
             v = vals.get(nm)
             if v is None:
@@ -282,6 +306,8 @@ def ref_params(p, origin, cursor, params, vals, at_end, env):
                 raise odxref.Reject("unknown table row")
             kd = prm["table"]["key_dop"]
             n = p.put_field(pos, bitpos, kd["bl"], r[0]["key"], kd.get("hl") in (None, True))
+            if "const_bits" in env and prm.get("row") is not None:
+                _mark(env, pos, bitpos, kd["bl"], kd.get("hl") in (None, True))  # fixed row
         elif k == "tablestruct":
             key = [q for q in params if q["kind"] == "tablekey" and q["id"] == prm["key"]][0]
             row, rv = vals[nm]
@@ -304,6 +330,15 @@ def ref_dop(p, pos, bitpos, d, v, at_end, env):
         if not s_or(*[v == x["code"] for x in d["dtcs"]]):
             raise odxref.Reject("trouble code is not described")
         return p.put_field(pos, bitpos, d["bl"], v, d.get("hl") in (None, True))
+    if k is None and d["dt"] == "A_BYTEFIELD":
+        if d.get("dct") == "leading":
+            if len(v) >= (1 << d["bl"]):
+                raise odxref.Reject("length does not fit")
+            n = p.put_field(pos, bitpos, d["bl"], len(v), d.get("hl") in (None, True))
+            return n + p.put_bytes(pos + n, v)
+        if 8 * len(v) != d["bl"] or bitpos:
+            raise odxref.Reject("byte field length")
+        return p.put_bytes(pos, v)
     if k is None:
         bl = d["bl"] if d.get("dct") != "paramlen" else env["lengths"][d["length_key"]]
         if bl == 0:
@@ -384,6 +419,8 @@ def ref_dop(p, pos, bitpos, d, v, at_end, env):
         kd = d["key_dop"]
         n = d.get("key_bytepos", 0) + p.put_field(pos + d.get("key_bytepos", 0),
                                                   d.get("key_bitpos") or 0, kd["bl"], key, True)
+        if "const_bits" in env:  # any key of the case's range selects the case: not canonical
+            _mark(env, pos + d.get("key_bytepos", 0), d.get("key_bitpos") or 0, kd["bl"], True)
         if st is not None:
             m = ref_dop(p, pos + d["bytepos"], 0, dict(complex="structure", params=st["params"]),
                         cval, at_end, env)
@@ -460,6 +497,9 @@ def require_same(sx, got, want, label, path=""):
         sx.require(isinstance(got, list) and len(got) == len(want), label)
         for i, (g, w) in enumerate(zip(got, want)):
             require_same(sx, g, w, label, f"{path}[{i}]")
+        return
+    if isinstance(want, (bytes, bytearray)) or isinstance(got, (bytes, bytearray)):
+        sx.require(s_and(len(got) == len(want), core.frozen(got) == core.frozen(want)), label)
         return
     sx.require(got == want, label)
 
@@ -681,7 +721,7 @@ REQUIRED_HARNESS = {"build": build_composite, "run": run_required, "width": 80,
 def shapes(spec):
     base = {"clock": True} if spec.get("clock") else {}
     out = [base]
-    for key, field in (("counts", "count"), ("cases", "case"), ("lengths", "length"), ("rows", "row"),
+    for key, field in (("counts", "count"), ("cases", "case"), ("lengths", "length"), ("rows", "row"), ("blens", "blen"),
                        ("request_len", "request_len")):
         if key in spec:
             out = [dict(s, **{field: x}) for s in out for x in spec[key]]
